@@ -178,6 +178,11 @@ def run_gjk_nesterov_accelerated(
             inside = True
             break
 
+        if use_nesterov_acceleration and i >= max_interations // 4:
+            # the accelerated iteration did not converge in a quarter of the
+            # budget: finish with plain GJK
+            use_nesterov_acceleration = False
+
         if use_nesterov_acceleration:
             momentum = (i + 1) / (i + 3)
             y = momentum * ray + (1.0 - momentum) * support_point
